@@ -31,6 +31,11 @@ REG = {
     "relu": ("PolyRelu", "erf", 0, True),
     "softplus": ("PolySoftPlus", "erf", 0, True),
 }
+# documented positional order of the shape parameters (README, `pyqsp --help`, main.py passes *polyargs / *seqargs)
+POS_ORDER = {"cosine": ("tau", "epsilon"), "sine": ("tau", "epsilon"), "invert": ("kappa", "epsilon"), "invert_rect": ("degree", "delta", "kappa", "epsilon"),
+             "sign": ("degree", "delta"), "threshold": ("degree", "delta"), "phase_estimation": ("degree", "delta"), "rect": ("degree", "delta", "kappa", "epsilon"),
+             "linear_amplification": ("degree", "gamma", "kappa"), "gibbs": ("degree", "beta"), "efilter": ("degree", "delta", "max_scale"),
+             "relu": ("degree", "delta", "max_scale"), "softplus": ("degree", "delta", "kappa", "max_scale")}
 DEFAULT_MAX_SCALE = {"sign": 0.9, "threshold": 0.9, "phase_estimation": 0.9, "rect": 0.9, "linear_amplification": 1.0,
                      "gibbs": 1.0, "efilter": 0.9, "relu": 0.99, "softplus": 0.9}
 
@@ -236,7 +241,22 @@ def call(PL, name, args, eb, rsc, cb, record=False, positional_degree=False, ret
     pos = []
     if positional_degree and "degree" in kw:
         pos = [kw.pop("degree")]
+    elif zlib.crc32(repr((name, sorted(args.items()), eb, rsc, cb, "positional")).encode()) % 3 == 0:
+        # the shape parameters positionally, in the documented order (what `pg.generate(*polyargs)` of the command line and
+        # the README examples do): the longest prefix of that order present in this request
+        for key in POS_ORDER[name]:
+            if key not in kw:
+                break
+            pos.append(kw.pop(key))
+        ARG_TYPES["positional-shape-parameters"] = ARG_TYPES.get("positional-shape-parameters", 0) + 1
     kw.update({"ensure_bounded": eb, "return_scale": rsc, "chebyshev_basis": cb})
+    if zlib.crc32(repr((name, sorted(args.items()), eb, rsc, cb, "omit-defaults")).encode()) % 2 == 0:
+        # options at their documented defaults are left to the library (ensure_bounded=True, return_scale=False,
+        # chebyshev_basis=False)
+        for key, dflt in (("ensure_bounded", True), ("return_scale", False), ("chebyshev_basis", False)):
+            if kw.get(key) is dflt:
+                kw.pop(key)
+        ARG_TYPES["options-at-default-omitted"] = ARG_TYPES.get("options-at-default-omitted", 0) + 1
     if REG[name][1] == "invrect" or REG[name][1] in ("cos", "sin", "inv"):
         kw.pop("cheb_samples", None)
     rec = None
